@@ -70,6 +70,8 @@ breaking('T3-gram-nuclear-norm', {'C05': 'T3'}, edit=[(M + 'entangle/ppt.py', "r
 breaking('SV1-status-optimal-only', {'C05': 'SV1'}, edit=[(M + 'entangle/symext.py', "tmp0 = not np.isinf(prob.value)", "tmp0 = prob.status==cvxpy.OPTIMAL")])
 breaking('B1-dropped-clamp', {'C12': 'B1'}, edit=[(M + 'utils.py', "            ret = np.sum(np.sqrt(np.maximum(0, tmp2)))**2", "            ret = np.sum(np.sqrt(tmp2))**2")])
 breaking('Q5-nz-short', {'C19': 'Q5'}, edit=[(M + 'qec/_internal.py', "for nz in range(min(num_qubit-nxy+1, tmp0)):", "for nz in range(min(num_qubit-nxy, tmp0)):")])
+breaking('E3-wrong-slot', {'C08': 'E3'}, edit=[(M + 'random/_spf2.py', "            F2[1] = 1-tmp0", "            F2[0] = 1-tmp0")])
+breaking('E2-unreduced-code', {'C08': 'E2'}, edit=[(M + 'gate/_pauli.py', "tmp0 = np.einsum(ret[:,:num_qubit], [0,1], ret[:,num_qubit:], [0,1], [0], optimize=True) % 4", "tmp0 = np.einsum(ret[:,:num_qubit], [0,1], ret[:,num_qubit:], [0,1], [0], optimize=True)")])
 breaking('refix-get_gme_2qubit', {'C13': 'F2', 'C05': 'F2'}, patch_reverse='fix_78cd862.diff')
 
 # ---- textual breaking edits, one per rule family
